@@ -148,7 +148,8 @@ deriving DecidableEq, Repr
 structure Entry where
   ans : Nat              -- identity of the answer set
   nAns : Nat             -- number of answer records
-  ns : Nat               -- authority section: 0 none, 1 one record, 2 a record whose `Pack` fails
+  ns : Nat               -- other sections: 0 none, 1 an authority record, 2 an authority record whose `Pack` fails,
+                         -- 3 an additional (glue) record, 4 authority + additional
   deadline : Int         -- `Deadline`
   orig : Int             -- `OriginalDeadline`
   deadlineNano : Int
@@ -282,6 +283,10 @@ def touch (e : Entry) (now : Int) : Entry := { e with lastAccess := now }
 /-- the deadline `LookupDnsRespCache_` tests: `OriginalDeadline` when `ignoreFixedTtl` -/
 def lookupDeadline (ign : Bool) (e : Entry) : Int := if ign then e.orig else e.deadline
 
+/-- the pre-packed bytes hold at least one record that carries the TTL (answer, authority or
+additional section) -/
+def packedVisible (e : Entry) : Bool := e.nAns > 0 || (e.ns != 0 && e.ns != 2)
+
 def freshServed (e : Entry) (ttl : Nat) (visible : Bool) : Served :=
   ⟨e.id, e.src, e.ans, e.nAns, ttl, visible, false, false⟩
 
@@ -290,7 +295,7 @@ def lookupEntry (cfg : Cfg) (now : Int) (ign : Bool) (e0 : Entry) : Option Entry
   let e := touch e0 now
   if lookupDeadline ign e > now then
     match (packedApprox e now).1 with
-    | some ttl => (some (packedApprox e now).2, .hit (freshServed e ttl (e.nAns > 0 || e.ns == 1)))
+    | some ttl => (some (packedApprox e now).2, .hit (freshServed e ttl (packedVisible e)))
     | none =>
       -- fillIntoWithTTLInPlace: answers only, exact remaining TTL of `Deadline`
       (some (packedApprox e now).2, .hit (freshServed e (ttlFromDeadline e.deadline now) (e.nAns > 0)))
@@ -298,7 +303,7 @@ def lookupEntry (cfg : Cfg) (now : Int) (ign : Bool) (e0 : Entry) : Option Entry
     match staleResp e now cfg.staleTtl with
     | some ttl =>
       (some { e with refreshing := true },
-        .hit ⟨e.id, e.src, e.ans, e.nAns, ttl, e.nAns > 0 || e.ns == 1, true, !e.refreshing⟩)
+        .hit ⟨e.id, e.src, e.ans, e.nAns, ttl, packedVisible e, true, !e.refreshing⟩)
     | none => (none, .miss)
   else (none, .miss)
 
